@@ -32,21 +32,22 @@ VARIABLES stream,   \* stream[e]: sequence of [id, n] appended by endpoint e
           rd,       \* rd[e] = <<index, offset>>: next unread byte of the stream ARRIVING at e
           closed,   \* set of endpoints that have closed
           broken,   \* endpoints whose outgoing stream ends in an unfinished message
-          half      \* endpoints that have closed their outgoing direction only (CloseWrite)
-cvars == <<stream, rd, closed, broken, half>>
+          half,     \* endpoints that have closed their outgoing direction only (CloseWrite)
+          faulted   \* endpoints that met an arriving record that does not authenticate
+cvars == <<stream, rd, closed, broken, half, faulted>>
 
 CInit == /\ stream = [e \in Ends |-> <<>>] /\ rd = [e \in Ends |-> <<1, 0>>]
-         /\ closed = {} /\ broken = {} /\ half = {}
+         /\ closed = {} /\ broken = {} /\ half = {} /\ faulted = {}
 
 WriteOK(e, id, n) == /\ e \notin closed /\ e \notin broken /\ e \notin half
                      /\ stream' = [stream EXCEPT ![e] = Append(@, [id |-> id, n |-> n])]
-                     /\ UNCHANGED <<rd, closed, broken, half>>
+                     /\ UNCHANGED <<rd, closed, broken, half, faulted>>
 \* A failed Write is the one operation that is not atomic: a payload of several records may be partly on the wire (and
 \* read by the peer) before the connection ends under it.  Its effect is either nothing, or the message as the LAST thing
 \* of that stream (no later Write on e succeeds); that it fails must be justified by a Close when it returns (WriteErrReturn).
 WriteErr(e, id, n) == /\ \/ ((e \in closed \/ Peer(e) \in closed \/ e \in broken \/ e \in half) /\ UNCHANGED <<stream, broken>>)
                          \/ (e \notin broken /\ e \notin half /\ stream' = [stream EXCEPT ![e] = Append(@, [id |-> id, n |-> n])] /\ broken' = broken \cup {e})
-                      /\ UNCHANGED <<rd, closed, half>>
+                      /\ UNCHANGED <<rd, closed, half, faulted>>
 \* (the peer's half close is no reason for a Write on e to fail)
 WriteErrReturn(e) == e \in closed \/ Peer(e) \in closed \/ e \in half
 \* a successful Read returns the segments segs = << [id, from, to], ... >>: exactly the next bytes
@@ -59,11 +60,17 @@ Walk(s, pos, segs) ==      \* position after consuming segs from stream s starti
 \* (a Read after the endpoint's own Close may still hand out bytes that had already arrived: the sequential object does the same)
 ReadOK(e, segs) == /\ segs # <<>>
                    /\ LET p == Walk(stream[Peer(e)], rd[e], segs) IN p # <<0, 0>> /\ rd' = [rd EXCEPT ![e] = p]
-                   /\ UNCHANGED <<stream, closed, broken, half>>
+                   /\ UNCHANGED <<stream, closed, broken, half, faulted>>
 \* end of the arriving stream: at once after a full Close of either end; after the peer's half close only when every
 \* byte it wrote before has been read
 AtEnd(e) == rd[e][1] > Len(stream[Peer(e)])
-ReadErr(e) == (e \in closed \/ Peer(e) \in closed \/ (Peer(e) \in half /\ AtEnd(e))) /\ UNCHANGED cvars
-CloseOp(e) == closed' = closed \cup {e} /\ UNCHANGED <<stream, rd, broken, half>>
-CloseWriteOp(e) == e \notin closed /\ half' = half \cup {e} /\ UNCHANGED <<stream, rd, closed, broken>>
+ReadErr(e) == (e \in closed \/ Peer(e) \in closed \/ (Peer(e) \in half /\ AtEnd(e)) \/ e \in faulted) /\ UNCHANGED cvars
+\* the Read on e that meets a record which does not authenticate (forged or damaged on the way): it fails, the direction
+\* arriving at e is over (every later Read fails too), and as part of the same call e tells its peer so with a fatal alert.
+\* For the stream LEAVING e that alert is one more atomic operation of the sending half: like CloseWrite it comes after
+\* every Write that succeeded and in the middle of none, every later Write on e fails, and the peer meets the end (as an
+\* error) only when everything written before has been delivered.
+FaultRead(e) == faulted' = faulted \cup {e} /\ half' = half \cup {e} /\ UNCHANGED <<stream, rd, closed, broken>>
+CloseOp(e) == closed' = closed \cup {e} /\ UNCHANGED <<stream, rd, broken, half, faulted>>
+CloseWriteOp(e) == e \notin closed /\ half' = half \cup {e} /\ UNCHANGED <<stream, rd, closed, broken, faulted>>
 =============================================================================
